@@ -30,6 +30,8 @@ import (
 	"os"
 	"os/exec"
 	"path/filepath"
+	"regexp"
+	"runtime"
 	"sort"
 	"strconv"
 	"strings"
@@ -442,9 +444,13 @@ func vkWorker(t *testing.T) {
 	if err := json.Unmarshal(b, &wl); err != nil {
 		t.Fatalf("worker: %v", err)
 	}
-	spec := strings.SplitN(os.Getenv("VERIF_CRASH"), ":", 2)
+	// all file-system calls of the workload come from this goroutine: keep it on one thread so
+	// that per-thread syscall counts (strace fault injection) are reproducible
+	runtime.LockOSThread()
+	spec := strings.SplitN(os.Getenv("VERIF_CRASH")+":0", ":", 3)
 	point := spec[0]
 	nth, _ := strconv.Atoi(spec[1])
+	mark := vkEnvInt("VERIF_SYS_MARK", -1)
 	hits := 0
 	armed := false
 	VerifCrashHook = func(name string) {
@@ -472,8 +478,15 @@ func vkWorker(t *testing.T) {
 		t.Fatalf("worker open: %v", err)
 	}
 	armed = true // passages during the initial New are not crash candidates
-	for _, st := range wl.Steps {
+	for i, st := range wl.Steps {
+		if i == mark {
+			os.Open("/verif-mark-begin") // visible in a syscall trace, no effect
+		}
 		run.exec(st)
+		if i == mark {
+			os.Open("/verif-mark-end")
+			os.Exit(0)
+		}
 		journal.Write([]byte("."))
 	}
 	_ = wl.Post
@@ -482,6 +495,16 @@ func vkWorker(t *testing.T) {
 }
 
 // ---- parent mode -----------------------------------------------------------
+
+type vkSysCand struct {
+	wl     *vkWorkload
+	opIdx  int
+	pre    vkState
+	wlPath string
+	kind   string
+	sites  [][2]interface{}
+	err    error
+}
 
 type vkCrashJob struct {
 	tid    int
@@ -492,6 +515,8 @@ type vkCrashJob struct {
 	local  int // occurrence within the interrupted step
 	pre    vkState
 	wlPath string
+	sysT   string                   // syscall-boundary crash: kill right after the sysN-th call of sysT (strace fault injection)
+	sysN   int
 	torn   int                      // >= 0: torn write, that many complete records of the batch kept; -1: none
 	rcs    []map[string]interface{} // further crashes during recovery: [{"p":..,"n":..}]
 	rhits  map[string]int           // crash points the (uncrashed) recovery passed
@@ -509,6 +534,13 @@ func vkRunCrashJob(j *vkCrashJob, root string) {
 	cmd := exec.Command(os.Args[0], "-test.run=^TestVerifCrash$")
 	cmd.Env = append(os.Environ(), "VERIF_CRASH_WORKER=1", "VERIF_WL="+j.wlPath, "VERIF_DIR="+dir,
 		fmt.Sprintf("VERIF_CRASH=%s:%d", j.point, j.global), "VERIF_JOURNAL="+journal)
+	if j.sysT != "" {
+		// no named crash point: strace kills the worker right after its sysN-th call of sysT
+		cmd = exec.Command("strace", "-f", "-qq", "-o", "/dev/null", "-e", "trace="+j.sysT,
+			"-e", fmt.Sprintf("inject=%s:signal=SIGKILL:when=%d", j.sysT, j.sysN), os.Args[0], "-test.run=^TestVerifCrash$")
+		cmd.Env = append(os.Environ(), "VERIF_CRASH_WORKER=1", "VERIF_WL="+j.wlPath, "VERIF_DIR="+dir,
+			"VERIF_CRASH=", "VERIF_JOURNAL="+journal, fmt.Sprintf("VERIF_SYS_MARK=%d", j.opIdx))
+	}
 	var out bytes.Buffer
 	cmd.Stdout, cmd.Stderr = &out, &out
 	if err := cmd.Start(); err != nil {
@@ -542,6 +574,10 @@ func vkRunCrashJob(j *vkCrashJob, root string) {
 	}
 	jb, _ := os.ReadFile(journal)
 	if len(jb) != j.opIdx {
+		if j.sysT != "" {
+			j.note = "sys_misaligned" // the kill fell outside the intended operation
+			return
+		}
 		j.note = fmt.Sprintf("nondeterministic: worker completed %d steps, profile says %d", len(jb), j.opIdx)
 		return
 	}
@@ -577,7 +613,7 @@ func vkRunCrashJob(j *vkCrashJob, root string) {
 		}
 	}
 	j.events = append(j.events, vkEvent{T: j.tid, K: "crash", A: "Open",
-		Args: map[string]interface{}{"wl": j.wl.ID, "p": j.point, "n": j.global}, Cfg: j.wl.Cfg, St: j.pre,
+		Args: map[string]interface{}{"wl": j.wl.ID, "p": j.openPoint(), "n": j.openN()}, Cfg: j.wl.Cfg, St: j.pre,
 		Obs: vkObs{A: "Open", Ret: []int64{}}})
 	// reopen + follow-up operations in a second child: a hang or a fatal
 	// runtime error there must not take the driver down
@@ -586,7 +622,7 @@ func vkRunCrashJob(j *vkCrashJob, root string) {
 	obsCmd := exec.Command(os.Args[0], "-test.run=^TestVerifCrash$")
 	obsCmd.Env = append(os.Environ(), "VERIF_CRASH_OBSERVER=1", "VERIF_WL="+j.wlPath, "VERIF_DIR="+dir,
 		"VERIF_EVENTS="+evPath, fmt.Sprintf("VERIF_JOB=%d:%d:%d:%s", j.tid, j.opIdx, j.local, j.point),
-		"VERIF_RCS="+vkJSON(j.rcs), fmt.Sprintf("VERIF_TORN=%d", j.torn))
+		"VERIF_RCS="+vkJSON(j.rcs), fmt.Sprintf("VERIF_TORN=%d", j.torn), "VERIF_SYS="+j.sysT)
 	var oout bytes.Buffer
 	obsCmd.Stdout, obsCmd.Stderr = &oout, &oout
 	if err := obsCmd.Start(); err != nil {
@@ -596,35 +632,47 @@ func vkRunCrashJob(j *vkCrashJob, root string) {
 	odone := make(chan error, 1)
 	go func() { odone <- obsCmd.Wait() }()
 	how := ""
-	hangMs := vkEnvInt("VERIF_HANG_MS", 10000)
-	select {
-	case err := <-odone:
-		if err != nil {
-			if ee, ok := err.(*exec.ExitError); ok {
-				if ws, ok := ee.Sys().(syscall.WaitStatus); ok && ws.Signaled() && ws.Signal() == syscall.SIGKILL {
-					// killed by somebody else (e.g. the OOM killer): not an observation
-					j.note = "infra:observer killed externally"
-					return
+	// A livelock is recognised by CPU time, not by the wall clock: an observer needs a few
+	// hundredths of a second of CPU for its whole job; one that has burned cpuBudget without
+	// finishing is spinning. An observer that exceeds the (generous) wall limit without having
+	// used that much CPU was starved or blocked: infrastructure, never a verdict.
+	cpuBudget := time.Duration(vkEnvInt("VERIF_HANG_CPU_MS", 3000)) * time.Millisecond
+	wallLimit := time.Duration(vkEnvInt("VERIF_OBS_WALL_MS", 120000)) * time.Millisecond
+	start := time.Now()
+	tick := time.NewTicker(100 * time.Millisecond)
+WAIT:
+	for {
+		select {
+		case err := <-odone:
+			if err != nil {
+				if ee, ok := err.(*exec.ExitError); ok {
+					if ws, ok := ee.Sys().(syscall.WaitStatus); ok && ws.Signaled() && ws.Signal() == syscall.SIGKILL {
+						// killed by somebody else (e.g. the OOM killer): not an observation
+						tick.Stop()
+						j.note = "infra:observer killed externally"
+						return
+					}
 				}
+				how = "died:" + err.Error()
 			}
-			how = "died:" + err.Error()
+			break WAIT
+		case <-tick.C:
+			if cpu := vkProcCPU(obsCmd.Process.Pid); cpu >= cpuBudget {
+				obsCmd.Process.Kill()
+				<-odone
+				how = "hang"
+				break WAIT
+			}
+			if time.Since(start) > wallLimit {
+				obsCmd.Process.Kill()
+				<-odone
+				tick.Stop()
+				j.note = fmt.Sprintf("infra:observer stalled (cpu %v after %v)", vkProcCPU(obsCmd.Process.Pid), wallLimit)
+				return
+			}
 		}
-	case <-time.After(time.Duration(hangMs) * time.Millisecond):
-		obsCmd.Process.Kill()
-		<-odone
-		// Timing alone never becomes a verdict: "hang" is reported only when the observer
-		// was busy for most of the time it was given (a livelock burns CPU); an observer
-		// that was merely slow or starved is an infrastructure failure.
-		cpu := time.Duration(0)
-		if ps := obsCmd.ProcessState; ps != nil {
-			cpu = ps.UserTime() + ps.SystemTime()
-		}
-		if cpu < time.Duration(hangMs)*time.Millisecond/2 {
-			j.note = fmt.Sprintf("infra:observer stalled (cpu %v of %d ms)", cpu, hangMs)
-			return
-		}
-		how = "hang"
 	}
+	tick.Stop()
 	eb, _ := os.ReadFile(evPath)
 	var last *vkEvent
 	for _, line := range bytes.Split(eb, []byte("\n")) {
@@ -648,7 +696,7 @@ func vkRunCrashJob(j *vkCrashJob, root string) {
 	}
 	if how != "" {
 		// the step the observer was executing did not return
-		seq := [][2]interface{}{{"CrashRecover", map[string]interface{}{"op": j.wl.Steps[j.opIdx], "p": j.point, "n": j.local, "torn": j.torn, "rcs": vkRcs(j.rcs)}}}
+		seq := [][2]interface{}{{"CrashRecover", map[string]interface{}{"op": j.wl.Steps[j.opIdx], "p": j.point, "n": j.local, "torn": j.torn, "sys": j.sysT, "rcs": vkRcs(j.rcs)}}}
 		for _, st := range j.wl.Post {
 			seq = append(seq, [2]interface{}{vStr(st, "a"), st})
 		}
@@ -696,7 +744,7 @@ func vkObserver(t *testing.T) {
 	rhits := map[string]int{}
 	VerifCrashHook = func(name string) { rhits[name]++ }
 	args := map[string]interface{}{"op": wl.Steps[opIdx], "p": point, "n": local, "torn": vkEnvInt("VERIF_TORN", -1),
-		"rcs": vkRcs(rcs), "rhits": rhits}
+		"sys": os.Getenv("VERIF_SYS"), "rcs": vkRcs(rcs), "rhits": rhits}
 	err = run.open()
 	VerifCrashHook = nil
 	if err != nil {
@@ -742,6 +790,104 @@ func vkTear(dir string, nrecs, keep int) error {
 		return fmt.Errorf("cannot tear %s: size %d, %d records, keep %d", name, info.Size(), nrecs, keep)
 	}
 	return os.Truncate(path, size)
+}
+
+// vkProcCPU is the CPU time (user+system, all threads) a live process has used.
+func vkProcCPU(pid int) time.Duration {
+	b, err := os.ReadFile(fmt.Sprintf("/proc/%d/stat", pid))
+	if err != nil {
+		return 0
+	}
+	// fields after the command name (which is in parentheses and may contain spaces)
+	i := bytes.LastIndexByte(b, ')')
+	if i < 0 {
+		return 0
+	}
+	f := strings.Fields(string(b[i+1:]))
+	if len(f) < 13 {
+		return 0
+	}
+	ut, _ := strconv.ParseInt(f[11], 10, 64) // utime, field 14 of the line
+	st, _ := strconv.ParseInt(f[12], 10, 64) // stime
+	return time.Duration(ut+st) * (time.Second / 100)
+}
+
+func (j *vkCrashJob) openPoint() string {
+	if j.sysT != "" {
+		return "syscall." + j.sysT
+	}
+	return j.point
+}
+
+func (j *vkCrashJob) openN() int {
+	if j.sysT != "" {
+		return j.sysN
+	}
+	return j.global
+}
+
+const vkSysSet = "openat,write,pwrite64,renameat,renameat2,rename,unlinkat,unlink,ftruncate"
+
+var vkSysLine = regexp.MustCompile(`^(\d+)\s+(\w+)\((.*)$`)
+
+// vkCalibrate runs the workload up to and including step opIdx under strace and returns, for
+// every file-system call the step made that changes the directory, the (syscall, n) pair
+// "n-th call of that syscall on the workload's thread".
+func vkCalibrate(wlPath string, opIdx int, root string, id int) (out [][2]interface{}, err error) {
+	dir := filepath.Join(root, fmt.Sprintf("k%d", id))
+	log := dir + ".strace"
+	defer os.RemoveAll(dir)
+	defer os.Remove(log)
+	defer os.Remove(dir + ".journal")
+	cmd := exec.Command("strace", "-f", "-qq", "-o", log, "-e", "trace="+vkSysSet, os.Args[0], "-test.run=^TestVerifCrash$")
+	cmd.Env = append(os.Environ(), "VERIF_CRASH_WORKER=1", "VERIF_WL="+wlPath, "VERIF_DIR="+dir, "VERIF_CRASH=",
+		"VERIF_JOURNAL="+dir+".journal", fmt.Sprintf("VERIF_SYS_MARK=%d", opIdx))
+	if b, e := cmd.CombinedOutput(); e != nil {
+		return nil, fmt.Errorf("strace run: %v: %s", e, b)
+	}
+	lb, e := os.ReadFile(log)
+	if e != nil {
+		return nil, e
+	}
+	lines := strings.Split(string(lb), "\n")
+	// the thread that issued the markers is the workload's thread
+	tid := ""
+	for _, ln := range lines {
+		if strings.Contains(ln, "/verif-mark-begin") {
+			if m := vkSysLine.FindStringSubmatch(ln); m != nil {
+				tid = m[1]
+			}
+		}
+	}
+	if tid == "" {
+		return nil, fmt.Errorf("marker not found in syscall trace")
+	}
+	count := map[string]int{}
+	inside := false
+	for _, ln := range lines {
+		m := vkSysLine.FindStringSubmatch(ln)
+		if m == nil || m[1] != tid {
+			continue
+		}
+		name, rest := m[2], m[3]
+		count[name]++
+		switch {
+		case strings.Contains(rest, "/verif-mark-begin"):
+			inside = true
+			continue
+		case strings.Contains(rest, "/verif-mark-end"):
+			inside = false
+			continue
+		}
+		if !inside {
+			continue
+		}
+		if name == "openat" && !strings.Contains(rest, "O_CREAT") && !strings.Contains(rest, "O_TRUNC") {
+			continue // opening an existing file changes nothing
+		}
+		out = append(out, [2]interface{}{name, count[name]})
+	}
+	return out, nil
 }
 
 func vkJSON(v interface{}) string {
@@ -794,6 +940,10 @@ func TestVerifCrash(t *testing.T) {
 	maxOcc := vkEnvInt("VERIF_MAXOCC", 2)
 	par := vkEnvInt("VERIF_PAR", 6)
 	only := os.Getenv("VERIF_ONLY") // "point:n" restricts the crash runs (replay)
+	sysMax := vkEnvInt("VERIF_SYS_MAX", 0)       // syscall-boundary crash runs (0 = off)
+	sysPerKind := vkEnvInt("VERIF_SYS_KIND", 6) // operations calibrated per operation kind
+	seenSys := map[[20]byte]bool{}
+	sysCands := []vkSysCand{}
 	dedup := os.Getenv("VERIF_DEDUP") != ""
 	torn := os.Getenv("VERIF_TORN_JOBS") != ""
 	seenJob := map[[20]byte]bool{}
@@ -832,6 +982,13 @@ func TestVerifCrash(t *testing.T) {
 			wl.Steps[i] = eff // the operation as issued (epochs resolved)
 			states = append(states, vkProject(run.l, dir))
 			tw.Emit(vkEvent{T: base, K: "base", A: vStr(st, "a"), Args: st, Cfg: wl.Cfg, St: states[i+1], Obs: obs})
+			if sysMax > 0 && vStr(st, "a") != "SetHW" {
+				kb, _ := json.Marshal([]interface{}{wl.Cfg, states[i], st})
+				if key := sha1.Sum(kb); !seenSys[key] {
+					seenSys[key] = true
+					sysCands = append(sysCands, vkSysCand{wl: wl, opIdx: i, pre: states[i], wlPath: wlPath, kind: vStr(st, "a")})
+				}
+			}
 			names := make([]string, 0, len(hits))
 			for name := range hits {
 				names = append(names, name)
@@ -886,6 +1043,61 @@ func TestVerifCrash(t *testing.T) {
 		os.WriteFile(wlPath, wb, 0644)
 	}
 
+	// 1b. syscall-boundary crashes: for a bounded number of operations of every kind the workload is
+	// traced once (which file-system calls does the operation make?), then the worker is killed
+	// right after each of them - boundaries the code has no named crash point for
+	if sysMax > 0 {
+		perKind := map[string]int{}
+		sel := []*vkSysCand{}
+		for i := range sysCands {
+			c := &sysCands[i]
+			if perKind[c.kind] < sysPerKind {
+				perKind[c.kind]++
+				sel = append(sel, c)
+			}
+		}
+		cch := make(chan int)
+		var cwg sync.WaitGroup
+		for w := 0; w < par; w++ {
+			cwg.Add(1)
+			go func() {
+				defer cwg.Done()
+				for i := range cch {
+					sel[i].sites, sel[i].err = vkCalibrate(sel[i].wlPath, sel[i].opIdx, root, i)
+				}
+			}()
+		}
+		for i := range sel {
+			cch <- i
+		}
+		close(cch)
+		cwg.Wait()
+		// round-robin over the operations so that the budget is spread over all kinds
+		nsys := 0
+		for round := 0; nsys < sysMax; round++ {
+			any := false
+			for _, c := range sel {
+				if c.err != nil {
+					if round == 0 {
+						stats["infra"]++
+						t.Logf("VERIF_NOTE wl=%d calibrate op %d: %v", c.wl.ID, c.opIdx, c.err)
+					}
+					continue
+				}
+				if round < len(c.sites) && nsys < sysMax {
+					any = true
+					nsys++
+					tid++
+					jobs = append(jobs, &vkCrashJob{tid: tid, wl: c.wl, point: "syscall", opIdx: c.opIdx, pre: c.pre,
+						wlPath: c.wlPath, torn: -1, sysT: c.sites[round][0].(string), sysN: c.sites[round][1].(int)})
+				}
+			}
+			if !any {
+				break
+			}
+		}
+	}
+
 	// 2. crash runs, bounded pool
 	ch := make(chan *vkCrashJob)
 	var wg sync.WaitGroup
@@ -916,7 +1128,7 @@ func TestVerifCrash(t *testing.T) {
 		}
 		cands := []cand{}
 		for _, j := range jobs {
-			if j.note != "" || len(j.events) < 2 || j.rhits == nil {
+			if j.note != "" || len(j.events) < 2 || j.rhits == nil || j.sysT != "" {
 				continue
 			}
 			names := make([]string, 0, len(j.rhits))
@@ -994,6 +1206,10 @@ func TestVerifCrash(t *testing.T) {
 		stats["point:"+j.point]++
 		if j.torn >= 0 {
 			stats["torn_runs"]++
+		}
+		if j.sysT != "" {
+			stats["sys_runs"]++
+			stats["sys:"+j.sysT+":"+vStr(j.wl.Steps[j.opIdx], "a")]++
 		}
 		for _, e := range j.events {
 			tw.Emit(e)
